@@ -112,6 +112,18 @@ Proof.
   intros t a Hin. apply in_app_or in Hin. destruct Hin as [Hin|Hin]; [eauto|]. specialize (B2 _ _ Hin). lia.
 Qed.
 
+(* the same for the wrapper AS BUILT: [wrap_dlopen_clock_first] is generated from the C text of
+   libmcount/wrap.c (position of the mcount_gettime() call relative to real_dlopen()) *)
+Lemma load_precedes_ctor_records_as_built : forall base tab ctor clk c' recs dls,
+  run_act wrap_dlopen_clock_first (ADlopen base tab ctor) clk = (c', recs, dls) ->
+  In (mkDl clk base tab) dls /\ (forall t a, In (t, a) recs -> clk < t) /\ clk < c'.
+Proof. change wrap_dlopen_clock_first with true. exact load_precedes_ctor_records. Qed.
+
+Lemma load_precedes_all_records_as_built : forall base tab ctor rest clk c' recs dls,
+  run_acts wrap_dlopen_clock_first (ADlopen base tab ctor :: rest) clk = (c', recs, dls) ->
+  In (mkDl clk base tab) dls /\ (forall t a, In (t, a) recs -> clk < t).
+Proof. change wrap_dlopen_clock_first with true. exact load_precedes_all_records. Qed.
+
 (* consequence for the analysis side: such a record is never rejected by the time test of
    session_find_dlsym - the library's table is searched for it *)
 Lemma loaded_library_is_searched : forall d t a, d_time d <= t ->
